@@ -523,7 +523,9 @@ func (w *ewWorld) envPod(k string) {
 		// a Pending pod only where the previous instance has been dealt with (no record, or a fixed-IP record parked in
 		// Unbind): the pod controller does not see a pod without a node, so whatever its predecessor's events still had to
 		// trigger must have happened
-		if rec := w.rawRec(k); (rec == nil || (rec.Spec.HaveFixedIP() && rec.Status.Phase == networkv1beta1.ENIPhaseUnbind && rec.DeletionTimestamp.IsZero())) && r.Chance(25) {
+		if _, pBusy := w.live["P:"+k]; pBusy {
+			// a reconciliation of the predecessor is still in flight: it may yet create or change the record
+		} else if rec := w.rawRec(k); (rec == nil || (rec.Spec.HaveFixedIP() && rec.Status.Phase == networkv1beta1.ENIPhaseUnbind && rec.DeletionTimestamp.IsZero())) && r.Chance(25) {
 			node = -1 // stays Pending for its whole life
 			w.c.Count("env:podPending")
 		}
